@@ -326,9 +326,19 @@ def run_core(case, res):
     gravity = rng.random() < 0.5
     if gravity:
         P['setup']['include_gravity_head_loss'] = True
+    ngr = 0
+    for tn, t in P['types'].items():
+        if not t.get('use_low_fidelity_model') and rng.random() < 0.7:
+            ngr += len(add_grids(rng, P, tn, rng.random() < 0.5))
     key = {'gravity': gravity, 'core': True}
     data, dzmax, req, zpl = observe(P, res, key)
     check_static(res, data, P, key, True, gravity)
+    check_grid_events(res, data, zpl, key)
+    names = [a['name'] for a in data]
+    res.tag('core_grids=%d' % ngr)
+    res.tag('core_same_type_with_grids=%s' % bool(
+        ngr and any(names.count(n) > 1 and 'SpacerGrid' in P['types'][n]
+                    for n in set(names))))
     n6 = sum(1 for a in data for rg in a['regions']
              if rg.get('model') == '6node')
     res.tag('sixnode_regions=%d' % n6)
